@@ -203,6 +203,14 @@ std::string run_session(const std::string& line, int line_no) {
                         case 'a': { CDNS::AddressEventCount ae; ae.ae_type = CDNS::AddressEventTypeValues::tcp_reset;
                                     ae.ae_address_index = blk.add_ip_address(std::string("\x01\x02\x03\x04", 4)); blk.add_address_event_count(ae, boost::none); break; }
                         case 't': blk.m_block_statistics = CDNS::BlockStatistics(); break;
+                        // the same items through the overloads' statistics argument, and items carrying a time offset
+                        case 'P': { q.client_port = 53; CDNS::BlockStatistics st; st.qr_data_items = 1; blk.add_question_response_record(q, st); break; }
+                        case 'A': { CDNS::AddressEventCount ae; ae.ae_type = CDNS::AddressEventTypeValues::tcp_reset;
+                                    ae.ae_address_index = blk.add_ip_address(std::string("\x01\x02\x03\x04", 4)); CDNS::BlockStatistics st; st.processed_messages = 2;
+                                    blk.add_address_event_count(ae, st); break; }
+                        case 'N': { m.client_port = 53; CDNS::BlockStatistics st; st.malformed_items = 1; blk.add_malformed_message(m, st); break; }
+                        case 'T': { q.time_offset = CDNS::Timestamp(1700000000 + (ti % 3), 5); blk.add_question_response_record(q, boost::none); break; }
+                        case 'U': { m.time_offset = CDNS::Timestamp(1700000000 - (ti % 2), 0); blk.add_malformed_message(m, boost::none); break; }
                         default: break;
                     }
                 }
